@@ -574,6 +574,40 @@ func c03Mutations(w *W) {
 			}
 		}
 	})
+	// pairs of here-documents (quoted/unquoted delimiter, well-formed/ill-formed body) in each arrangement of two
+	// commands: a body is scanned for expansions according to ITS OWN delimiter
+	hs := []string{"<<E", "<<'E'", "<<-E", "<<F", "<<G", "<<'G'", "<<H"}
+	for _, h1 := range hs {
+		for _, h2 := range hs {
+			for _, t := range [][]string{{"a", h1, h2}, {"a", h1, "|", "b", h2}, {"a", h1, ";", "b", h2}, {"a", h1, "\n", "b", h2}, {"{", "a", h1, ";", "}", h2}, {"a", h1, "$(c)", h2}} {
+				if !w.Mine() {
+					continue
+				}
+				ss := syms(append(append([]string{}, t...), "\n")...)
+				m := gramParse(ss)
+				if m.dontcare != "" {
+					continue
+				}
+				r := render(ss)
+				w.Announce(r.src)
+				o := runParse(r.src)
+				w.Count("states", 1)
+				w.Count("evaluations", 1)
+				w.Count("here_document_pairs", 1)
+				w.Count("traces_validated_against_impl", 1)
+				w.Count("distinct_nontrivial", 1)
+				var cl, d string
+				if m.ok {
+					cl, d = c02Judge(ss, m, r, o)
+				} else {
+					cl, d = c03Judge(ss, m, r, o)
+				}
+				if d != "" {
+					w.Violation(c03Class(cl, ss, r, m, o), symCase{symTexts(ss), r.src}, d)
+				}
+			}
+		}
+	}
 	mutants(w, func(ss []sym) {
 		if lexicallyEntangled(ss) {
 			return
